@@ -308,12 +308,9 @@ def tasks_for(tier, seed):
     # in-fragment programs
     pres = [(pl, True, t) for pl, t in G.core_preconditions()]
     effs = [(pl, True, t) for pl, t in G.core_effects()]
-    n = 60 if tier == "quick" else 1500
+    n = 400 if tier == "quick" else 3000
     pres += G.sampled_programs(seed * 7 + 1, n, "pre")
     effs += G.sampled_programs(seed * 7 + 2, n, "eff")
-    if tier == "quick":
-        pres = pres[::2]
-        effs = effs[::2]
     progs = []
     for i in range(max(len(pres), len(effs))):
         pl, const, pre = pres[i % len(pres)]
@@ -325,7 +322,7 @@ def tasks_for(tier, seed):
         tree = G.domain_tree([("act", G.PARAM_LISTS[pl], pre, eff)], const=const)
         label = f"pre {sexpr.render(pre)} eff {sexpr.render(eff)}"
         tasks.append({"text": G.pretty(tree), "fragment": "in", "label": label, "layout": "canonical"})
-        if i % (4 if tier == "quick" else 2) == 0:
+        if i % 2 == 0:
             lay = LAYOUTS[(i // 2) % len(LAYOUTS)]
             tasks.append({"text": render_layout(tree, lay), "fragment": "in", "label": f"[{lay}] " + label, "layout": lay})
     # every layout on a few rich programs
